@@ -972,6 +972,40 @@ pub fn c07_structure(input: &str, ext_idx: usize, conv_sel: u8, st: &mut Stats) 
             st.nontrivial(&(input, ext_idx, conv_sel));
         }
     }
+    // "valid exactly when it has output and no error" for the other ways of asking: with parse options
+    // (whose callbacks add diagnostics of their own) and for the metadata-only parse
+    {
+        let with_options = guard(|| {
+            let a = p.parse_with_options(input, test_options());
+            let b = p.parse_metadata(input);
+            let c = p.parse_metadata_with_options(input, test_options());
+            let view = |rep: &cooklang::error::SourceReport, valid: bool, out: bool, valid_out: bool| (rep.iter().filter(|d| d.severity == Severity::Error).count(), rep.has_errors(), rep.errors().count(), valid, out, valid_out);
+            [
+                ("parse_with_options", view(a.report(), a.is_valid(), a.has_output(), a.valid_output().is_some())),
+                ("parse_metadata", view(b.report(), b.is_valid(), b.has_output(), b.valid_output().is_some())),
+                ("parse_metadata_with_options", view(c.report(), c.is_valid(), c.has_output(), c.valid_output().is_some())),
+            ]
+        });
+        match with_options {
+            Err(_) => st.exclude("parse with options panicked (C03's business)"),
+            Ok(views) => {
+                for (what, (n, has, counted, valid, out, valid_out)) in views {
+                    vensure!(
+                        has == (n > 0) && counted == n,
+                        "c07.has_errors-inconsistent",
+                        "{what}: the report holds {n} error diagnostics but has_errors() = {has} and errors() yields {counted}; input {input:?}"
+                    );
+                    vensure!(
+                        valid == (out && n == 0) && valid_out == valid,
+                        "c07.validity-definition",
+                        "{what}: is_valid() = {valid}, valid_output() is {}, but has_output = {out} and errors = {n}; input {input:?}",
+                        if valid_out { "Some" } else { "None" }
+                    );
+                    st.class_if(n > 0 && what != "parse_metadata", "error diagnostics under parse options");
+                }
+            }
+        }
+    }
     // every view of the result tells the same story (the consuming views need a parse each: only when
     // there is something to tell)
     let n_warn = rep.iter().filter(|d| d.severity == Severity::Warning).count();
